@@ -2,6 +2,7 @@ import ShootVerif.Proofs.MapperExec
 import ShootVerif.Proofs.MapperTables
 import ShootVerif.Proofs.MapperResolve
 import ShootVerif.Proofs.MapperHeadlines
+import ShootVerif.Proofs.MapperObs
 /-!
 C09 — ToX and FromX never panic and FromX fully resets its receiver.
 
@@ -54,6 +55,16 @@ theorem C09_selector_agrees (t : Tree) (hsel : wfSelectors t = true) (hsh : skip
     (f : Field) (hf : f ∈ flatten t) :
     ∃ l, goResolve t f.name = some l ∧ l ∈ leavesOf t ∧ l.path = f.path ∧ l.decl.ty = f.ty ∧ l.decl.name = f.name ∧
       l.depth = f.depth ∧ l.decl.tag ≠ .skip := flatten_resolves t hsel hsh f hf
+
+/-- the headline in `obs = spec` form: under WF09 (and an output that type-checks: `C05_compiles` derives that from the
+    input too) the model's whole C09 observation list — nil receiver / nil argument, EVERY nil mask of the reading side in any
+    mask list over any slot list, the three receiver states of FromX per mask — equals the specification's list. The
+    driver's per-case comparison `model = spec` on region WF is an instance; nothing about the tables or the masks is
+    evaluated per input. -/
+theorem C09_obs_spec (inp : Input) (h : WF09 inp = true) (hc : modelCompiles inp = true)
+    (srcSlots destSlots masks fmasks : List String) :
+    obs09 inp srcSlots destSlots masks fmasks = spec09 inp srcSlots destSlots masks fmasks :=
+  obs09_eq_spec09 inp h hc srcSlots destSlots masks fmasks
 
 /-- headline: the result of FromX does not depend on the receiver (nil, freshly allocated, or dirty) -/
 theorem C09_reset (inp : Input) (h : WF09 inp = true) (N : List String) (r₁ r₂ : Recv) :
